@@ -127,6 +127,17 @@ impl Sink {
 }
 
 impl Write for Sink {
+    /// A sink that takes gathered writes itself (as files, pipes and sockets do): the buffers are one byte sequence, and the
+    /// acceptance policy is applied to that sequence - so a short count may end in the middle of ANY of the buffers.
+    /// (The library at the pinned commit never gathers; this only matters for code that starts to.)
+    fn write_vectored(&mut self, bufs: &[io::IoSlice<'_>]) -> io::Result<usize> {
+        let mut all: Vec<u8> = vec![];
+        for b in bufs {
+            all.extend_from_slice(b);
+        }
+        self.write(&all)
+    }
+
     fn write(&mut self, buf: &[u8]) -> io::Result<usize> {
         // policies that must not hold the RefCell while they work
         let pol0 = self.0.borrow().policy.clone();
